@@ -49,7 +49,7 @@ def _writer(tier, bug="none", **over):
 
 
 def _ctrl(tier, bug="none", **over):
-    c = dict(Depths=[2, 3] if tier == "quick" else [2, 3, 4], WDepths=[1, 2] if tier != "quick" else [2], RDepths=[1, 2], Lmins=[1],
+    c = dict(Depths=[2, 3] if tier == "quick" else [2, 3, 4], WDepths=[1, 2] if tier != "quick" else [2], RDepths=[1, 2] if tier != "quick" else [2], Lmins=[1],
              Base=4, Bug=bug)
     c.update(over)
     return c
@@ -116,7 +116,7 @@ GEN = {
              cfg=dict(kind="writer", port="native", depth=0)),
     ],
     "C13": [
-        dict(name="gen-fifoctrl", module="MC_FifoCtrl", kind="fifoctrl", consts=lambda t: _ctrl(t, Lmins=[1, 3]), covers=["NeverFull", "NeverWrap"],
+        dict(name="gen-fifoctrl", module="MC_FifoCtrl", kind="fifoctrl", consts=lambda t: _ctrl(t, WDepths=[1, 2], RDepths=[1, 2], Lmins=[1, 3]), covers=["NeverFull", "NeverWrap"],
              cfg=dict(kind="fifoctrl", bypass=0, ratio=1, depth=0)),
         dict(name="gen-fifomode-r1", module="MC_FifoMode", kind="fifomode", consts=lambda t: _mode(1, False), covers=["NeverBackToBypass", "NeverDramFull"],
              cfg=dict(kind="fifo", bypass=1, ratio=1, depth=2)),
